@@ -980,3 +980,33 @@ def inline_generator_helpers(tree, ref_mod: dict) -> int:
         if done:
             tree.body.remove(g)
     return n
+
+
+# --------------------------------------------------------------------------------------------------- fused loops
+def fuse_comp_loops(fnode, ref: dict) -> int:
+    """`for y in [E for x in S if c]: BODY` (a comprehension the reference does not have, usually a hoisted filter) -> `for x in S: if c: y = E; BODY`:
+    BODY does not touch what the comprehension reads, so interleaving the filter with the body keeps every effect and its order"""
+    from .normalise import canon
+    known = set(ref.get("scopes_all", [])) | set(ref.get("scopes", {}))
+    n = 0
+    for l in [x for x in ast.walk(fnode) if isinstance(x, ast.For)]:
+        it = l.iter
+        if not (isinstance(it, (ast.ListComp, ast.GeneratorExp)) and len(it.generators) == 1 and not it.generators[0].is_async) or canon(it) in known or l.orelse:
+            continue
+        g = it.generators[0]
+        reads = {x.id for x in ast.walk(it) if isinstance(x, ast.Name) and isinstance(x.ctx, ast.Load)}
+        gt = {x.id for x in ast.walk(g.target) if isinstance(x, ast.Name)}
+        body_mod = ast.Module(body=l.body, type_ignores=[])
+        if _stores(body_mod, (reads - gt) | gt) or any(_mutates(l.body, nm) for nm in reads - gt) or not _pure(it.elt) or not all(_pure(c) for c in g.ifs) or not _pure(g.iter):
+            continue
+        tn = {x.id for x in ast.walk(l.target) if isinstance(x, ast.Name)}
+        if tn & gt or any(isinstance(x, ast.Name) and x.id in gt for s2 in l.body for x in ast.walk(s2)):
+            continue
+        inner = [ast.Assign(targets=[l.target], value=it.elt)] + list(l.body)
+        for c in reversed(g.ifs):
+            inner = [ast.If(test=c, body=inner, orelse=[])]
+        l.target, l.iter, l.body = g.target, g.iter, inner
+        n += 1
+    if n:
+        ast.fix_missing_locations(fnode)
+    return n
